@@ -214,6 +214,8 @@ def execute_step(m: Machine, step, prop_of):
         elif op == "scale":
             e.obj.scale(step["s"])
             e.model.scale(step["s"])
+            if step["s"] < 0:
+                m.probe_hit("scale_by_negative_factor")
             receivers.append(e)
         elif op == "reduce_to_ids":
             ids = [i for i in step["ids"] if -e.model.n <= i < e.model.n]
@@ -1241,7 +1243,11 @@ def gen_step(m: Machine, rng, uid):
                     "flag_as": rng.choice([None, None, "str", "int", "np"])}
         if op == "scale":
             s = rng.choice([0.5, 2.0, 0.1, 10.0, 1.0, 1.5, 0.999, 3.25])
-            if not (1e-3 <= e.model.scale_acc * s <= 1e3):
+            if rng.random() < 0.2:
+                # a point reflection combined with the scaling: positions are
+                # multiplied by s, lengths by |s| (seeded defect c08z)
+                s = -s
+            if not (1e-3 <= e.model.scale_acc * abs(s) <= 1e3):
                 return None
             return {"op": op, "uid": uid, "obj": e.uid, "s": s}
         if op == "reduce_to_ids":
